@@ -53,7 +53,7 @@ def arg_shapes(bus=None, buf=None, node=None):
         [ts('a'), ti(1), ts('b'), tl(ti(2)), ts('c'), tf(24)],
         [td(ts('freq'), ti(440), ts('amp'), tf(4))],
         [td(ts('freq'), tl(ti(440), ti(441)))],
-        [ts('in'), ts('c1')],
+        [ts('in'), ts('a0')],
     ]
     if bus:
         out += [[ts('bus'), tobj(bus)], [ts('in'), tmap(bus), ts('x'), tl(tobj(bus), ti(1))], [td(ts('bus'), tobj(bus))]]
@@ -109,10 +109,10 @@ def node_ops(bus=2, buf=3, other=1):
     ops = [op('set', h=4, a=a) for a in arg_shapes(bus, buf, other)[1:7]]
     ops += [op('setn', h=4, a=[ts('freq'), tl(ti(1), tf(2), ti(3)), ti(3), tf(4)]),
             op('setn', h=4, a=[ti(0), ti(7)]),
-            op('map', h=4, a=[ts('freq'), tobj(bus), ti(2), ti(5)]),
-            op('mapa', h=4, a=[ts('in'), ti(6)]),
-            op('mapn', h=4, a=[ts('freq'), tobj(bus), ti(2), ti(5)]),
-            op('mapan', h=4, a=[ti(1), ti(4)]),
+            op('map', h=4, a=[ts('freq'), tobj(bus), ti(2), ti(-1)]),
+            op('mapa', h=4, a=[ts('in'), ti(1)]),
+            op('mapn', h=4, a=[ts('freq'), tobj(bus), ti(2), ti(-1)]),
+            op('mapan', h=4, a=[ti(1), ti(2)]),
             op('fill', h=4, a=[ts('freq'), ti(2), tf(4), ti(3), ti(2), ti(1)]),
             op('run', h=4, n=[0]), op('run', h=4, n=[1]),
             op('release', h=4, n=[0, 0]), op('release', h=4, n=[1, 16]), op('release', h=4, n=[1, 0]), op('release', h=4, n=[1, 4]),
@@ -278,6 +278,38 @@ def fam_sync(maxlen):
     return hs
 
 
+def fam_bus_args():
+    """a bus as an argument of node commands over its life cycle: map symbol (as_map()) and the object itself, in set / map /
+    mapn / Synth args, before and after free(), audio and control, 1 and 2 channels, with or without a new bus allocated in
+    between (which takes over the freed index)"""
+    hs = []
+    for kind in ('cbus', 'abus'):
+        m, mn = ('map', 'mapn') if kind == 'cbus' else ('mapa', 'mapan')
+
+        def uses(h):
+            return [None,
+                    op('set', h=4, a=[ts('in'), tmap(h)]),
+                    op('set', h=4, a=[ts('bus'), tobj(h), ts('x'), tl(tmap(h), ti(1))]),
+                    op('set', h=4, a=[ts('bus'), tobj(h)]),
+                    op(m, h=4, a=[ts('freq'), tobj(h)]),
+                    op(mn, h=4, a=[ti(0), tobj(h)]),
+                    op('synth', **{'def': 'd'}, tk='obj', t=1, act='addToTail', a=[ts('in'), tmap(h)]),
+                    op('paused', **{'def': 'd'}, tk='none', act='head', a=[td(ts('bus'), tobj(h))])]
+        for ch in (1, 2):
+            for before in uses(5):
+                for after in uses(5)[1:]:
+                    for between in (False, True):
+                        h = PRE_NODE + [op(kind, n=[ch])] + ([before] if before else []) + [op('bus_free', h=5)]
+                        if between:
+                            nxt = 6 + (1 if before and before['op'] in ('synth', 'paused') else 0)
+                            h += [op(kind, n=[ch]), dict(after), uses(nxt)[1]]
+                        else:
+                            h += [dict(after)]
+                        h += [op('run', h=4, n=[1])]
+                        hs.append(h)
+    return hs
+
+
 def has_sync(h):
     return any(o['op'] == 'sync' or any(i['op'] == 'sync' for i in o.get('body', [])) for o in h)
 
@@ -299,6 +331,9 @@ def random_history(rnd, n):
         x = rnd.random()
         if rnd.random() < (0.2 if inbind else 0.03):
             return op('sync')
+        dead = pick('deadbus')
+        if dead and pick('synth', 'group') and rnd.random() < 0.08:     # the map symbol of a freed bus: must be refused
+            return op('set', h=pick('synth', 'group'), a=[ts('in'), tmap(dead)])
         tgt = pick('group', 'synth')
         tk = rnd.choice(['obj', 'obj', 'none', 'server']) if tgt else rnd.choice(['none', 'server'])
         if x < 0.12 or not kinds:
@@ -364,7 +399,7 @@ def random_history(rnd, n):
         c = pick('cbus', 'abus')
         if c:
             if rnd.random() < 0.4:
-                kinds[c - 1] = 'dead'
+                kinds[c - 1] = 'deadbus'
                 return [op('bus_free', h=c)] * rnd.choice([1, 1, 2])
             if kinds[c - 1] == 'cbus':
                 return rnd.choice([op('c_set', h=c, a=[tf(4)]), op('c_fill', h=c, a=[tf(8)], n=[1]), op('c_get', h=c)])
@@ -480,7 +515,8 @@ def run(ctx):
     fams = [('creation', fam_creation()), ('node-seq', fam_node_sequences(2)),
             ('buffers', fam_buffers(5 if thorough else 4)), ('buffer-cmds', fam_buffer_commands()),
             ('buses', fam_buses(5 if thorough else 4)), ('bus-cmds', fam_bus_commands()),
-            ('bind', fam_bind(3 if thorough else 2)), ('bind-sync', fam_sync(4 if thorough else 3))]
+            ('bind', fam_bind(3 if thorough else 2)), ('bind-sync', fam_sync(4 if thorough else 3)),
+            ('bus-args', fam_bus_args())]
     cases = []
     famcount = {}
     for name, hs in fams:
